@@ -188,6 +188,7 @@ fn model_step(
     survivors: &HashSet<u32>,
     has_purge: bool,
     invalidate_if_targets: &HashSet<u32>,
+    evict_first: bool,
 ) -> ModelOut {
     let mut r: Vec<Res> = pre.to_vec();
     let mut out = ModelOut::default();
@@ -208,7 +209,10 @@ fn model_step(
             Purge::SurvivorsStay => purge_dead(&mut r, &|x| survivors.contains(&x.key)),
         }
     }
-    if runs_maintenance && kind == Kind::Unsync {
+    // unsync: the pending excess is evicted when the call starts. sync: a maintenance run nested
+    // in the call may do the same before the call's own op is applied (only matters when an
+    // excess is pending, i.e. after a batch-limited eviction).
+    if runs_maintenance && (kind == Kind::Unsync || evict_first) {
         growth_evict(&mut r, cap, &mut out.growth_victims);
     }
     match op {
@@ -243,6 +247,13 @@ fn model_step(
                         out.admission = Some((false, vec![]));
                     }
                 }
+            }
+        }
+        Op::Get { k } => {
+            // a hit refreshes recency before the eviction of the same maintenance run (sync)
+            if let Some(i) = r.iter().position(|x| x.key == *k && x.live) {
+                let x = r.remove(i);
+                r.push(x);
             }
         }
         Op::Invalidate { k } => r.retain(|x| x.key != *k),
@@ -356,8 +367,9 @@ impl Driver {
             self.known_hits.push(v);
         } else {
             let ours = self.opts.prop.is_empty() || self.opts.prop == "all" || v.props.iter().any(|p| *p == self.opts.prop);
-            // structural damage and double drops end the history for everybody: going on could crash
-            let fatal = v.sig.starts_with("structure:") || v.sig.starts_with("objects:double-drop");
+            // broken links, dangling back-pointers and double drops end the history for everybody:
+            // going on could crash the shard
+            let fatal = v.sig.starts_with("structure:deque-links") || v.sig.starts_with("structure:dangling") || v.sig.starts_with("objects:double-drop");
             self.result.violations.push(v);
             if self.opts.stop_at_first && (ours || fatal) {
                 self.dead = true;
@@ -545,6 +557,14 @@ impl Driver {
             self.step_light(op);
             return;
         }
+        // A popularity table of more than 2^18 words (2 MiB) cannot be copied around every call.
+        // The workloads never need one (<= 600 entries); weights and capacities that make the
+        // cache size it that large end the history (allocation limits are out of scope, §10).
+        if self.cut.as_ref().unwrap().sketch_table_len() > (1 << 18) {
+            self.result.stats.inc("histories_abandoned_popularity_table_too_large");
+            self.abandon();
+            return;
+        }
         let exact = self.exact();
         let is_sync = self.cfg.kind == Kind::Sync;
         let now = self.now();
@@ -601,6 +621,11 @@ impl Driver {
                 return;
             }
             synced = true;
+        }
+        if self.cut.as_ref().unwrap().sketch_table_len() > (1 << 18) {
+            self.result.stats.inc("histories_abandoned_popularity_table_too_large");
+            self.abandon();
+            return;
         }
         let post = self.cut.as_ref().unwrap().snapshot();
         let mid = if is_sync { mid } else { post.clone() };
@@ -866,6 +891,15 @@ impl Driver {
         self.op_index += 1;
     }
 
+    /// Ends the history without a verdict and releases the cache without the end-of-history checks.
+    fn abandon(&mut self) {
+        if let Some(c) = self.cut.take() {
+            let _ = catch_unwind(AssertUnwindSafe(move || drop(c)));
+            let _ = take_panic();
+        }
+        self.dead = true;
+    }
+
     fn on_panic(&mut self, op: &Op) {
         let (loc, msg) = take_panic().unwrap_or_else(|| ("?".into(), "?".into()));
         let loc = norm_loc(&loc);
@@ -1007,6 +1041,13 @@ impl Driver {
     ) {
         let kind = self.cfg.kind;
         let cap = self.cfg.cap;
+        // Maintenance works in bounded batches (100 / 500 entries per run); the one-step model
+        // describes what happens below one batch, which is the scope C12 / C13 state.
+        let batch = if kind == Kind::Sync { mini_moka::verif::constants::SYNC_EVICTION_BATCH_SIZE } else { mini_moka::verif::constants::UNSYNC_EVICTION_BATCH_SIZE };
+        if pre.entries.len() >= batch {
+            self.result.stats.inc("transition_checks_skipped_at_or_above_one_batch");
+            return;
+        }
         // residents in LRU order, from the implementation's own pre-state
         let mut pre_res: Vec<Res> = Vec::new();
         for n in &pre.probation {
@@ -1046,11 +1087,17 @@ impl Driver {
             .collect();
 
         let mut outs: Vec<(ModelOut, BTreeSet<u32>)> = Vec::new();
-        for purge in [Purge::AllFirst, Purge::NoneFirst, Purge::SurvivorsStay] {
-            let m = model_step(kind, &pre_res, cap, op, eff_w, cand_freq, purge, &survivors, has_purge, invalidate_if_targets);
-            let live: BTreeSet<u32> = m.residents.iter().copied().filter(|k| truth_after.may_be_visible(*k, now)).collect();
-            if !outs.iter().any(|(_, l)| *l == live) {
-                outs.push((m, live));
+        let pending_excess = cap.map(|c| pre_res.iter().map(|r| r.w).sum::<u64>() > c).unwrap_or(false);
+        for evict_first in [false, true] {
+            if evict_first && !(kind == Kind::Sync && pending_excess) {
+                continue;
+            }
+            for purge in [Purge::AllFirst, Purge::NoneFirst, Purge::SurvivorsStay] {
+                let m = model_step(kind, &pre_res, cap, op, eff_w, cand_freq, purge, &survivors, has_purge, invalidate_if_targets, evict_first);
+                let live: BTreeSet<u32> = m.residents.iter().copied().filter(|k| truth_after.may_be_visible(*k, now)).collect();
+                if !outs.iter().any(|(_, l)| *l == live) {
+                    outs.push((m, live));
+                }
             }
         }
 
@@ -1125,7 +1172,7 @@ impl Driver {
                 let cleaned: Vec<Res> = pre_res.iter().filter(|r| !stale_keys.iter().any(|(k, _)| *k == r.key)).cloned().collect();
                 let mut ok = false;
                 for purge in [Purge::AllFirst, Purge::NoneFirst, Purge::SurvivorsStay] {
-                    let m = model_step(kind, &cleaned, cap, op, eff_w, cand_freq, purge, &survivors, has_purge, invalidate_if_targets);
+                    let m = model_step(kind, &cleaned, cap, op, eff_w, cand_freq, purge, &survivors, has_purge, invalidate_if_targets, false);
                     let live: BTreeSet<u32> = m.residents.iter().copied().filter(|k| truth_after.may_be_visible(*k, now)).collect();
                     if live == impl_live {
                         ok = true;
@@ -1453,7 +1500,17 @@ impl Driver {
                 self.result.stats.nontrivial.insert("C04");
             }
             let allowed = if is_sync {
-                0
+                // once an explicit sync() has run (below one eviction batch) nothing may be over;
+                // otherwise an excess that an earlier, batch-limited run left behind may persist
+                if maintained && pre.entries.len() < mini_moka::verif::constants::SYNC_EVICTION_BATCH_SIZE {
+                    0
+                } else {
+                    self.allowed_excess
+                        + match op {
+                            Op::Insert { w, .. } => self.eff_weight(*w) as u64,
+                            _ => 0,
+                        }
+                }
             } else {
                 // unsync: an update that grew an entry may leave an excess of at most its growth;
                 // ops that do not run the eviction keep the excess they found
@@ -1469,7 +1526,10 @@ impl Driver {
                     _ => 0,
                 }
             };
-            if excess > allowed {
+            // above one eviction batch the excess is removed over several following operations
+            let batch_limit = if is_sync { mini_moka::verif::constants::SYNC_EVICTION_BATCH_SIZE } else { mini_moka::verif::constants::UNSYNC_EVICTION_BATCH_SIZE };
+            let below_batch = pre.entries.len() < batch_limit && post.entries.len() < batch_limit;
+            if excess > allowed && below_batch {
                 self.violate(
                     &["C04"],
                     format!("capacity:resident-weight-over-max:{}", op.kind_name()),
